@@ -523,6 +523,34 @@ func ruleRender(p *Prog, r *Result) {
 					bareUnconditional = true
 				}
 			}
+			// ... and printing has no memory: the answer depends on the spelling of this very name, so nothing
+			// reachable from the method keeps state between calls (a cache keyed by a folded form of the name
+			// answers for another spelling)
+			stateful := ""
+			for _, g := range p.staticClosure(fn, 4, nil) {
+				if !p.InPkg(g) {
+					continue
+				}
+				allInstrs(g, func(in ssa.Instruction) {
+					switch x := in.(type) {
+					case *ssa.Call:
+						if n := p.calleeName(&x.Call); strings.HasPrefix(n, "(*sync.Map).") {
+							stateful = n + " at " + p.InstrPos(in)
+						}
+					case *ssa.Store:
+						if _, isG := x.Addr.(*ssa.Global); isG {
+							stateful = "store to a package variable at " + p.InstrPos(in)
+						}
+					case *ssa.MapUpdate:
+						if u, ok := x.Map.(*ssa.UnOp); ok {
+							if _, isG := u.X.(*ssa.Global); isG {
+								stateful = "update of a package-level map at " + p.InstrPos(in)
+							}
+						}
+					}
+				})
+			}
+			r.add(stateful == "", tn+"|stateless", p.Pos(fn.Pos()), firstNonEmpty(stateful, "printing a name keeps no state between calls"))
 			r.add(asksLexer && quoted && !bareUnconditional, tn+"|quoted", p.Pos(fn.Pos()), "a name is printed bare only behind a test that asks the lexer whether the bare text reads back as this name, and between backticks otherwise (`KEY`, `a b`, `1`, `in` are names whose bare text reads back as something else)")
 		}
 	}
